@@ -65,7 +65,30 @@ func fuzzSetup(id string) {
 			}
 		}
 		fzKnown = NewRec(Load(id)).known
+		// the engine discards the workers' stderr: keep it, so that an unrecoverable crash of a worker (fatal error,
+		// panic in a goroutine of the code under test) can be attributed by the driver
+		if dir := os.Getenv("VERIF_FUZZ_OUT"); dir != "" && isFuzzWorker() {
+			if f, err := os.OpenFile(filepath.Join(dir, fmt.Sprintf("stderr-%d.log", os.Getpid())), os.O_CREATE|os.O_WRONLY|os.O_APPEND, 0o644); err == nil {
+				syscall.Dup2(int(f.Fd()), 2)
+			}
+		}
 	})
+}
+
+func isFuzzWorker() bool {
+	for _, a := range os.Args {
+		if strings.HasPrefix(a, "-test.fuzzworker") {
+			return true
+		}
+	}
+	return false
+}
+
+// fuzzCurrent records the input that is about to be executed (see fuzzSetup: crash attribution).
+func fuzzCurrent(data []byte) {
+	if dir := os.Getenv("VERIF_FUZZ_OUT"); dir != "" {
+		os.WriteFile(filepath.Join(dir, fmt.Sprintf("current-%d.corpus", os.Getpid())), []byte(CorpusText(data)), 0o644)
+	}
 }
 
 func fuzzFlush() {
@@ -84,6 +107,7 @@ func fuzzFlush() {
 func Fuzz(f *testing.F, id string, oracle FuzzOracle, sample func(data []byte) string) {
 	f.Fuzz(func(t *testing.T, data []byte) {
 		fuzzSetup(id)
+		fuzzCurrent(data)
 		// a watchdog: an input on which the code under test does not terminate is reported through a marker file
 		// (the driver reports it as inconclusive), and the worker exits so that the campaign continues
 		done := make(chan struct{})
@@ -228,6 +252,7 @@ func FuzzRapid(f *testing.F, id string, prop func(*rapid.T) RapidVerdict) {
 	})
 	f.Fuzz(func(t *testing.T, data []byte) {
 		fuzzSetup(id)
+		fuzzCurrent(data)
 		done := make(chan struct{})
 		go func() {
 			select {
